@@ -141,7 +141,7 @@ class C03(Prop):
                   "(Stockholm/Pfam: every field incl. weight and cut-off values) -> re-write and byte comparison. "
                   "REFORMAT STABILITY (`<fmt>_read_in_domain_*`, `<fmt>_reformat_stable_*`): for EVERY input the reader accepts, the alignment it returns lies in the writer's proved domain, so "
                   "read(write(read x)) = project(read x) - for A2M and aligned FASTA under the explicit side condition that no header line holds a bare CR/LF-adjacent byte (`a2mHdrOkB`, "
-                  "`afaHdrOkB`; aligned FASTA text mode also `afaNoGtB`: no '>' residue), for Clustal under `cluNamesNeB` (no empty name) and the not-a-consensus-line condition, for "
+                  "`afaHdrOkB`), for Clustal under `cluNamesNeB` (no empty name) and the not-a-consensus-line condition, for "
                   "PHYLIP (both variants; names come back <= 10 graphic characters, nseq/alen <= 2^31-1 proved from esl_mem_strtoi32) under `phyNamesNeB` and, text mode, "
                   "`phyRowsSymB` (the writer upper-cases), for PSI-BLAST partially (no lower-case residue); each side condition is shown necessary by a proved counter-example on the model (listed in DESIGN / the report). "
                   "NOT PROVED (monitors + executable models only): Stockholm/Pfam multi-line #=GS values and optional arrays with no entry set; A2M with separate "
@@ -349,7 +349,10 @@ class C03(Prop):
                                                        "rt fmt=a2m abc=text n=2 alen=4 nm=61,62 sq=412d4745,416f4745"]})
         # reformat path (read -> write -> read), confirmed defects of the library (known findings; each reproduced with esl-reformat)
         rf = lambda name, key, fmt, data, abc="text": c.append({"name": name, "known_key": key, "ops": ["reformat fmt=%s abc=%s hex=%s" % (fmt, abc, data.hex())]})
-        rf("known-reformat-afa-gt", "C03:reformat:afa-gt-residue", "afa", b">a\n" + b"A" * 60 + b">\n")
+        # repaired (C03-afa-gt-residue: text-mode '>' is eslDSQ_ILLEGAL): plain regression cases - rejected on input, and a '>' that would not even start an output line
+        c.append({"name": "regress-reformat-afa-gt", "ops": ["reformat fmt=afa abc=text hex=%s" % (b">a\n" + b"A" * 60 + b">\n").hex(),
+                                                             "reformat fmt=afa abc=text hex=%s" % b">a\nAC>GT\n>b\nACGGT\n".hex(),
+                                                             "reformat fmt=afa abc=dna hex=%s" % (b">a\n" + b"A" * 60 + b">\n").hex()]})
         rf("known-reformat-afa-cr", "C03:reformat:header-trailing-cr", "afa", b">a x\r\r\nAC\n")
         rf("known-reformat-a2m-cr", "C03:reformat:header-trailing-cr", "a2m", b">a x\r\r\nAC\n")
         rf("known-reformat-clustal-nul-name", "C03:reformat:nul-in-name", "clustal", b"CLUSTAL W alignment\n\n\x00x ACGT\n   ****\n")
